@@ -407,7 +407,7 @@ pub fn run(tier: Tier) -> i32 {
             st.violate(Violation { key: "C13/long-history".into(), check: "long-history-ladder".into(), case: json!({"kind": "long-history", "n": tier.pick(400, 1500), "what": what}), expected: want, actual: got });
         }
     }
-    rep.rule = "explicit-state BFS over all operation histories up to the depth bound (operations: compile / clone / search on 4 shared documents / drop, over 7 expressions incl. a failing call, by-functions with nested calls, a shared literal, a failing compile, a custom runtime); the state is the history, the invariant replays it on fresh real objects and compares the last operation's full observation (tree with offsets, value, or complete error struct) with the same operation on an empty history, and every shared document with its original JSON. Plus each operation as the first operation of a fresh process. non-trivial = non-empty history".into();
+    rep.rule = "explicit-state BFS over all operation histories up to the depth bound (operations: compile / clone / search on 4 shared documents / drop, over 15 expressions incl. a failing call, by-functions with nested calls, a shared literal, a failing compile, a custom runtime); the state is the history, the invariant replays it on fresh real objects and compares the last operation's full observation (tree with offsets, value, or complete error struct) with the same operation on an empty history, and every shared document with its original JSON. Plus each operation as the first operation of a fresh process. non-trivial = non-empty history".into();
     rep.bounds = json!({"depth": depth, "operations": nops, "expressions": EXPRS, "documents": docs()});
     rep.stats = st;
     rep.finish()
